@@ -94,7 +94,8 @@ static void enqueue(const void *buf, int count, int dest, int tag, bool eager)
 	m->seq = fm_seq++;
 	if(eager) {
 		m->data = malloc(count ? count : 1);
-		memcpy(m->data, buf, count);
+		if(count)
+			memcpy(m->data, buf, count);
 	} else {
 		m->buf = buf;
 	}
@@ -114,6 +115,9 @@ static void enqueue(const void *buf, int count, int dest, int tag, bool eager)
 		fl_head = m;
 	fl_tail = m;
 	fm_sent++;
+	if(g_verbose)
+		fprintf(stderr, "MPI sps=%llu send seq=%llu from r%d t%d to r%d size=%d first=%d ready_at=%llu\n", (unsigned long long)G.sps,
+		    (unsigned long long)m->seq, m->src_rank, m->src_vt, dest, count, count >= 4 ? *(const int *)buf : -1, (unsigned long long)m->ready_at);
 	sim_progress();
 	sim_event(0x80, ((uint64_t)dest << 32) | (unsigned)count, m->seq);
 }
@@ -187,7 +191,8 @@ static void materialise(struct fm_msg *m)
 		sim_violation("C06", "buffer-released-in-flight",
 		    "the buffer of a message still in MPI flight (size %d, to rank %d) was released by the sender", m->size, m->dst);
 	m->data = malloc(m->size ? m->size : 1);
-	memcpy(m->data, m->buf, m->size);
+	if(m->size)
+		memcpy(m->data, m->buf, m->size);
 	if(m->ready_at > 0)
 		fm_late_reads++;
 }
@@ -220,6 +225,9 @@ static int do_probe(int source, int tag, int *flag, MPI_Message *message, MPI_St
 	unlink_msg(m);
 	materialise(m);
 	fm_matched++;
+	if(g_verbose)
+		fprintf(stderr, "MPI sps=%llu match seq=%llu by r%d t%d size=%d first=%d\n", (unsigned long long)G.sps, (unsigned long long)m->seq,
+		    my_rank(), vt_self ? vt_self->id : -1, m->size, m->size >= 4 ? *(const int *)m->data : -1);
 	sim_progress();
 	*flag = 1;
 	*message = m;
@@ -272,7 +280,8 @@ int MPI_Mrecv(void *buf, int count, MPI_Datatype dt, MPI_Message *message, MPI_S
 	(void)dt;
 	(void)status;
 	struct fm_msg *m = *message;
-	memcpy(buf, m->data, count < m->size ? count : m->size);
+	if(m->size && count)
+		memcpy(buf, m->data, count < m->size ? count : m->size);
 	free(m->data);
 	free(m);
 	*message = NULL;
